@@ -33,6 +33,91 @@ def _signature(viol):
     return meta, ev, "pg %s first-unexplained=%s" % (meta.get("shape"), lab)
 
 
+def _split(trace):
+    runs, cur = [], None
+    for ln in open(trace).read().splitlines():
+        if ln.startswith('{"a":"reset"'):
+            cur = [ln]
+            runs.append(cur)
+        elif cur is not None:
+            cur.append(ln)
+    return runs
+
+
+def _suspicious(run):
+    """Triage only (never a verdict): does the end-of-run observation look wrong on its face?
+    A stopped actor still present somewhere, scope index != forward map, a leak after the run."""
+    try:
+        end = json.loads(run[-2])
+        leak = json.loads(run[-1])
+        if leak.get("a") != "obs.leak" or leak.get("d") != 0:
+            return True
+        snap, st = end["snap"], end["st"]
+        dead = {a for a, v in st.items() if v >= 5}
+        for e in snap["map"]:
+            if dead & (set(e["mem"]) | set(e["ls"])):
+                return True
+        for e in snap["world"]:
+            if dead & set(e["ls"]):
+                return True
+        if dead & {e["a"] for e in snap["rel"]}:
+            return True
+        fwd = {(e["sc"], e["gr"]) for e in snap["map"] if e["mem"]}
+        idx = {(e["sc"], g) for e in snap["index"] for g in e["gs"]}
+        if fwd != idx or any(not e["gs"] for e in snap["index"]):
+            return True
+        for q in end.get("q", []):
+            mem = [e["mem"] for e in snap["map"] if (e["sc"], e["gr"]) == (q["sc"], q["gr"])]
+            if sorted(q["mem"]) != sorted(mem[0] if mem else []):
+                return True
+    except Exception:
+        return True
+    return False
+
+
+def _triage(trace, label, v, pid, limit=14):
+    """validate_batch gives up after a few strictly-rejected runs. When every one of those was
+    explained leniently (a change that reorders internal steps makes EVERY run diverge), look at the
+    runs whose final observation is suspicious, plus a sample with per-step snapshots, leniently."""
+    runs = _split(trace)
+    sus = [r for r in runs if _suspicious(r)][:limit]
+    rest = [r for r in runs if '"a":"obs.snap"' in "".join(r[1:4]) and r not in sus]
+    step = max(1, len(rest) // limit)
+    pick = sus + rest[::step][:limit]
+    log("[V] triage: %d suspicious final observations, validating %d runs leniently" % (len(sus), len(pick)))
+    w = vlib.workdir("triage_" + label)
+    found = 0
+    while pick and found < 3:
+        f = os.path.join(w, "pick.ndjson")
+        with open(f, "w") as o:
+            for r in pick:
+                o.write("\n".join(r) + "\n")
+        lv = vlib.tlc_trace("Trace_Pg", "Trace_Pg.cfg", f, False, timeout=1200, name="triage_" + label)
+        if lv.get("error") or lv["timeout"]:
+            log(lv.get("error", "timeout"))
+            raise vlib.ToolError("TLC lenient validation failed to run (triage %s)" % label)
+        if lv["accepted"]:
+            break
+        at, pos, bad_i = lv["rejected_at"], 0, None
+        for i, r in enumerate(pick):
+            if pos < at <= pos + len(r):
+                bad_i = i
+                break
+            pos += len(r)
+        if bad_i is None:
+            raise vlib.ToolError("cannot locate rejected line %s (triage)" % at)
+        bad = pick[bad_i]
+        viol = {"run": bad, "lenient_event_index": at - pos - 1, "lenient_event": bad[at - pos - 1]}
+        log("[V] REJECTED (%s, triage): %s" % (label, viol["lenient_event"][:300]))
+        meta, ev, sig = _signature(viol)
+        v.violation(sig, {"family": "pg", "meta": meta, "trace": [json.loads(x) for x in bad],
+                          "first_unexplained": viol["lenient_event_index"], "event": ev,
+                          "replay_cmd": "./check %s --replay <this file>" % pid})
+        found += 1
+        pick = pick[bad_i + 1:]
+    return found
+
+
 def run(pid, tier, seed):
     t0 = time.time()
     v = vlib.Verdict(pid)
@@ -67,7 +152,8 @@ def run(pid, tier, seed):
         summ = vlib.harness(["pg", "--out", trace, "--tier", tier, "--scale", scale, "--seed", bseed])
         if summ.get("bad_runs"):
             log("[V] %d runs ended with a stuck or overrunning thread" % summ["bad_runs"])
-        vb = vlib.validate_batch("Trace_Pg", "Trace_Pg.cfg", trace, "pg_%s_%d" % (pid, bi), max_divergences=6)
+        maxdiv = 8
+        vb = vlib.validate_batch("Trace_Pg", "Trace_Pg.cfg", trace, "pg_%s_%d" % (pid, bi), max_divergences=maxdiv)
         log("[V] batch %d: %d runs, %d events, strict-accepted %d, divergences %d, rejected %d, deviations %s" % (
             bi, summ["runs"], vb["events"], vb["strict_accepted"], len(vb["divergences"]), len(vb["violations"]), vb["deviations"]))
         for viol in vb["violations"]:
@@ -75,6 +161,8 @@ def run(pid, tier, seed):
             v.violation(sig, {"family": "pg", "meta": meta, "trace": [json.loads(x) for x in viol["run"]],
                               "first_unexplained": viol.get("lenient_event_index"), "event": ev,
                               "replay_cmd": "./check %s --replay <this file>" % pid})
+        if not vb["violations"] and len(vb["divergences"]) >= maxdiv:
+            tot["rej"] += _triage(trace, "pg_%s_%d" % (pid, bi), v, pid)
         for name, n in vb["deviations"].items():
             devs[name] = devs.get(name, 0) + n
         tot["runs"] += summ["runs"]
